@@ -126,4 +126,8 @@ def abortOK (limit : Int) (abortAt : Int) (torn : Option Int) : Bool :=
 /-- Leak clause (measured): goroutines and backend connections are back at the baseline. -/
 def leakOK (goBase goAfter connsBase connsAfter : Int) : Bool := decide (goAfter ≤ goBase) && decide (connsAfter ≤ connsBase)
 
+/-- Histories: the clauses above are per request and carry no condition on what the proxy served before, so a long-lived
+    instance taken through any sequence of requests satisfies the property iff every request of the sequence does. -/
+def historyOK (requests : List Bool) : Bool := requests.all id
+
 end Olla.Spec.C18
